@@ -51,10 +51,18 @@ def rand_key(rng, fam=None):
 class TstGen:
     name = "tsttable"
 
+    # focus=None : the operations C11 names (add, get, contains, remove, remove_all, size, foreach,
+    #              iterator next/remove), default comparator, no fail=
+    # "iter"     : the same with iterator programs up-weighted and the other comparators
+    # "reject"   : absent keys (near misses: proper prefixes, extensions, sibling characters) up-weighted,
+    #              iter_remove before the first / after the last iter_next
+    # "fault", "growth" : add-dominated histories (the runner adds the refusals itself)
+    # "all"      : everything, plus explicit fail= on add/new and the other comparators
+    # "derived", "sort" : the container has no such operations; same as None
+
     # ------------------------------------------------------------------ small scope
     def small_scope(self, tier, focus=None):
         out = []
-        it_ops = focus in ("iter", "all", None)
         sets = [
             [b"a", b"ab", b"abc"],                 # nested prefixes
             [b"b", b"a", b"c"],                    # one level, left/right
@@ -66,53 +74,48 @@ class TstGen:
             sets += [[b"a", b"ab", b"abc", b"b"], [b"car", b"cat", b"ca", b"c", b"d"],
                      [b"\x7f", b"\x80", b"\x81", b"\x01\xff"], [b"aaaa", b"aaab", b"aa", b"ab", b"b"]]
         for ks in sets:
+            n = len(ks)
             perms = list(itertools.permutations(ks))
             for pi, ins in enumerate(perms):
-                # every removal order for some insertion orders, a rotating one for the others
-                rem_orders = list(itertools.permutations(ks))
-                if len(ks) >= 4 and tier == "quick":
-                    rem_orders = [rem_orders[(7 * pi) % len(rem_orders)], rem_orders[(11 * pi + 3) % len(rem_orders)]]
-                elif len(ks) >= 5:
-                    rem_orders = [rem_orders[(7 * pi + j * 13) % len(rem_orders)] for j in range(6)]
+                adds = [f"add k={hx(k)} v={i + 1}" for i, k in enumerate(ins)]
+                # all insertion orders x all removal orders (a rotating sample of removal orders for
+                # the bigger sets)
+                rem_orders = perms
+                if n == 4 and tier == "quick":
+                    rem_orders = [perms[(7 * pi) % len(perms)], perms[(11 * pi + 3) % len(perms)]]
+                elif n >= 5:
+                    rem_orders = [perms[(7 * pi + j * 13) % len(perms)] for j in range(6)]
                 for rem in rem_orders:
-                    ops = ["new"]
-                    for i, k in enumerate(ins):
-                        ops.append(f"add k={hx(k)} v={i + 1}")
-                    ops.append("foreach_key")
-                    for k in rem:
-                        ops.append(f"remove k={hx(k)}")
-                    ops.append("destroy")
+                    out.append(["new"] + adds + ["foreach_key"] + [f"remove k={hx(k)}" for k in rem] + ["destroy"])
+                # iterator: remove the yielded elements selected by a bit mask over the yield index
+                masks = range(1 << n) if n <= 3 else [(5 * pi + 3) % (1 << n), (1 << n) - 1, 1 << (pi % n)]
+                for mask in masks:
+                    ops = ["new"] + adds + ["it_new"]
+                    for j in range(n):
+                        ops.append("it_next")
+                        if mask >> j & 1:
+                            ops.append("it_remove" if j % 2 == 0 else "it_remove_noout")
+                    ops += ["it_next", "it_next", "it_remove", "foreach_value", "destroy"]
                     out.append(ops)
-                if it_ops:
-                    # iterator: remove a subset of the yielded elements (bit mask over yield index)
-                    n = len(ks)
-                    masks = range(1 << n) if n <= 3 else [(5 * pi + 3) % (1 << n), (1 << n) - 1, 1 << (pi % n)]
-                    for mask in masks:
-                        ops = ["new"] + [f"add k={hx(k)} v={i + 1}" for i, k in enumerate(ins)] + ["it_new"]
-                        for j in range(n):
-                            ops.append("it_next")
-                            if mask >> j & 1:
-                                ops.append("it_remove" if j % 2 == 0 else "it_remove_noout")
-                        ops += ["it_next", "it_next", "it_remove", "foreach_value", "destroy"]
-                        out.append(ops)
-        # replace, absent keys, remove_all, other comparators
+        # replace, absent keys, remove_all
         out.append(["new", "add k=61 v=1", "add k=61 v=2", "get k=61", "get k=62", "contains k=6162", "remove k=6162",
                     "remove k=62", "size", "remove k=61", "remove k=61", "remove_all", "size", "destroy"])
         out.append(["new", "add k=6162 v=1", "get k=61", "contains k=61", "remove k=61", "remove_noout k=61",
                     "add k=61 v=0", "get k=61", "remove_noout k=6162", "foreach_key", "remove_all", "foreach_key", "destroy"])
-        for cm in ("u", "r"):
-            out.append([f"new cmp={cm}", "add k=80 v=1", "add k=61 v=2", "add k=ff v=3", "add k=6180 v=4", "foreach_key",
-                        "it_new", "it_next", "it_remove", "it_next", "it_next", "it_next", "it_next", "remove k=61", "remove_all", "destroy"])
         out.append(["new_default", "add k=6162 v=1", "add k=61 v=2", "remove k=6162", "foreach_value", "destroy"])
         out.append(["new", "it_new", "it_next", "it_remove", "it_next", "destroy"])
         out.append(["new", "add k=62 v=1", "it_new", "it_remove", "it_next", "it_next", "it_remove", "destroy"])
+        if focus in ("iter", "all"):
+            for cm in ("u", "r"):
+                out.append([f"new cmp={cm}", "add k=80 v=1", "add k=61 v=2", "add k=ff v=3", "add k=6180 v=4", "foreach_key",
+                            "it_new", "it_next", "it_remove", "it_next", "it_next", "it_next", "it_next", "remove k=61",
+                            "remove_all", "destroy"])
         if focus in ("fault", "all"):
             out += self.fault_seeds(tier)
-        if focus in ("all",):
-            for h in self.fault_seeds(tier):
-                pass
-        if focus == "all" or focus == "reject":
+        if focus == "all":
             out.append(["new fail=1", "add k=61 v=1", "destroy"])
+            out.append(["new", "add k=616263 v=1 fail=2", "add k=616263 v=1 fail=4", "add k=6162 v=2 fail=1", "size",
+                        "add k=616263 v=1", "add k=6162 v=2 fail=1", "add k=6162 v=2", "add k=616263 v=5 fail=1", "destroy"])
         return out
 
     def fault_seeds(self, tier):
@@ -135,31 +138,25 @@ class TstGen:
                 cm = rng.choice(["u", "r"])
             ops = ["new" if cm == "s" else f"new cmp={cm}"]
             length = rng.randint(3, 50 if tier == "quick" else 90)
-            present = []
-            p_add = rng.choice([0.35, 0.5, 0.7])
-            if focus == "growth" or focus == "fault":
-                p_add = 0.8
-            p_iter = {None: 0.06, "iter": 0.25, "all": 0.12}.get(focus, 0.0)
+            present = []       # keys known to be present (unknown after an iterator program: reset)
+            p_add = 0.8 if focus in ("growth", "fault") else rng.choice([0.35, 0.5, 0.7])
+            p_iter = {None: 0.06, "iter": 0.25, "all": 0.12, "reject": 0.08}.get(focus, 0.0)
             p_absent = 0.5 if focus == "reject" else 0.15
-            i = 0
-            while i < length:
-                i += 1
-                r = rng.random()
-                if r < p_iter:
-                    ops += self.iter_program(rng, len(present))
-                    # the iterator program tells which yields it removes; recompute presence lazily
-                    present = None
+            for _ in range(length):
+                if rng.random() < p_iter:
+                    ops += self.iter_program(rng, len(present), early_remove=(focus in ("reject", "all")))
                     ops.append("size")
-                    present = []  # unknown: later removes may hit absent keys, which is fine
+                    present = []
                     continue
                 r = rng.random()
                 if r < p_add:
                     k = rand_key(rng, fam)
+                    assert not x5_excluded(hx(k))
                     fail = ""
                     if focus == "all" and rng.random() < 0.12:
                         fail = f" fail={rng.randint(1, len(k) + 1)}"
                     ops.append(f"add k={hx(k)} v={rng.choice([0, 1, 2, 3, rng.randint(1, 99)])}{fail}")
-                    if k not in present:
+                    if k not in present and not fail:
                         present.append(k)
                 elif r < p_add + 0.2:
                     if present and rng.random() > p_absent:
@@ -167,6 +164,8 @@ class TstGen:
                         present.remove(k)
                     else:
                         k = self.near_miss(rng, present, fam)
+                        if k in present:
+                            present.remove(k)
                     ops.append(f"{'remove' if rng.random() < 0.8 else 'remove_noout'} k={hx(k)}")
                 elif r < p_add + 0.35:
                     k = rng.choice(present) if present and rng.random() > p_absent else self.near_miss(rng, present, fam)
@@ -177,28 +176,29 @@ class TstGen:
                     ops.append("remove_all")
                     present = []
                 else:
-                    k = rand_key(rng, fam)
-                    ops.append(f"get k={hx(k)}")
+                    ops.append(f"get k={hx(rand_key(rng, fam))}")
             ops.append("destroy")
             out.append(ops)
         return out
 
     def near_miss(self, rng, present, fam):
-        """an absent key close to a present one: proper prefix, extension, sibling character"""
+        """a (probably absent) key close to a present one: proper prefix, extension, sibling character"""
         if present and rng.random() < 0.8:
             k = rng.choice(present)
             c = rng.random()
             if c < 0.35 and len(k) > 1:
-                return k[:rng.randint(1, len(k) - 1)]
+                return k[:rng.randint(1, len(k) - 1)]      # never the empty prefix (X5)
             if c < 0.7:
                 return k + bytes([rng.choice([0x61, 0x01, 0xff, 0x80])])
             return k[:-1] + bytes([(k[-1] % 255) + 1])
         return rand_key(rng, fam)
 
-    def iter_program(self, rng, size_hint):
+    def iter_program(self, rng, size_hint, early_remove=False):
         """it_new, then next / remove with at most one removal per yielded element; sometimes runs past
-        the end, sometimes stops early; get/contains/foreach in between do not invalidate"""
+        the end, sometimes stops early; get/contains/size/foreach in between do not invalidate"""
         ops = ["it_new"]
+        if early_remove and rng.random() < 0.3:
+            ops.append("it_remove")                       # before the first next: KEY_NOT_FOUND
         steps = rng.randint(0, size_hint + 3)
         p_rm = rng.choice([0.0, 0.3, 0.6, 1.0])
         for _ in range(steps):
